@@ -351,7 +351,7 @@ class TestCase(unittest.TestCase):
             className = ", ".join(klass.__name__ for klass in classOrIterable)
         return className
 
-    def addCleanup(self, function, *arguments, **keywordArguments):
+    def addCleanup(self, function, /, *arguments, **keywordArguments):
         """Add a cleanup function to be called after tearDown.
 
         Functions added with addCleanup will be called in reverse order of
@@ -629,6 +629,10 @@ class TestCase(unittest.TestCase):
             reason = err.args[0]
         else:
             reason = "no reason given."
+        if not isinstance(reason, str):
+            # skipTest() takes anything that can be cast to text, e.g. the
+            # ImportError that makes the test pointless.
+            reason = str(reason)
         self._add_reason(reason)
         result.addSkip(self, details=self.getDetails())
 
